@@ -203,6 +203,17 @@ class _FnAnalysis:
 
     def call(self, n):
         cn = dotted(n.func)
+        if any(isinstance(a, ast.Starred) and isinstance(a.value, (ast.Tuple, ast.List)) for a in n.args):
+            # f(x, *(a, b, c), y): the display is spliced in, so that every argument meets the parameter of its position
+            import copy
+            n = copy.copy(n)
+            ex = []
+            for a in n.args:
+                if isinstance(a, ast.Starred) and isinstance(a.value, (ast.Tuple, ast.List)) and not any(isinstance(e_, ast.Starred) for e_ in a.value.elts):
+                    ex.extend(a.value.elts)
+                else:
+                    ex.append(a)
+            n.args = ex
         args = [self.ev(a) for a in n.args]
         kws = {k.arg: self.ev(k.value) for k in n.keywords if k.arg}
         if cn == 'len' and args:
@@ -243,8 +254,14 @@ class _FnAnalysis:
                     argmap[p] = a
                 for k, a in kws.items():
                     argmap[k] = a
+                # **mapping: its contents can reach every parameter that is not bound otherwise
+                starkw = Val()
+                for k_ in n.keywords:
+                    if k_.arg is None:
+                        v_ = self.ev(k_.value)
+                        starkw = starkw.join(Val(v_.V, v_.S))
                 for p in s.params:
-                    argmap.setdefault(p, Val())
+                    argmap.setdefault(p, starkw)
                 # in-place mutation of array arguments
                 for p, mv in s.mut.items():
                     node = None
